@@ -9,8 +9,15 @@ THEOREMS = [
     "C16.dag_iter_edges", "C16.dag_iter_edges_connected", "C16.dag_iter_mem", "C16.dag_iter_nodup", "C16.fuel_suffices",
     "C16.ancestors_eq_reach", "C16.descendants_eq_reach", "C16.siblings_eq",
     "C16.go_to_all_paths", "C16.go_to_refused_iff",
+    # bridge DAGNode store (C10's DagStore) -> Dag graphs: lean/BigtreeProofs/Properties/DagBridge.lean
+    "DagBridge.toDag_wf", "DagBridge.toDag_wf_iff", "DagBridge.reachable_wf", "DagBridge.reachable_wf_trace",
+    "DagBridge.vocabulary", "DagBridge.store_links",
+    "DagBridge.dag_iter_edges_reachable", "DagBridge.dag_iter_mem_reachable", "DagBridge.ancestors_reachable",
+    "DagBridge.descendants_reachable", "DagBridge.siblings_store", "DagBridge.go_to_reachable", "DagBridge.export_reachable",
+    "DagBridge.assign_edges", "DagBridge.setChildren_edges_exact", "DagBridge.setParents_edges_exact",
+    "DagBridge.delete_edges", "DagBridge.rejected_edges",
 ]
-PROOF_IMPORTS = ["BigtreeProofs.Properties.C16"]
+PROOF_IMPORTS = ["BigtreeProofs.Properties.C16", "BigtreeProofs.Properties.DagBridge"]
 RULE = ("one case = one DAG (edges in construction order, each added through a randomly chosen real setter: "
         "parents=, children=, >>, <<) and one start node; compared from that node: dag_iterator (only when the DAG "
         "is weakly connected), ancestors, descendants, siblings and go_to to every node. Exhaustive: every acyclic "
@@ -29,7 +36,10 @@ EXHAUSTIVE = {
 MODELLED = ["DAGNode objects are ids; node names are the ids (dag_iterator keys its visited set by name: names are distinct by hypothesis)",
             "generators are modelled as the list they yield when driven to exhaustion without interleaved mutation"]
 ASSUMPTIONS = ["node names are distinct (stated by the property and by dag_iterator's docstring)",
-               "the DAG was built through the DAGNode setters, so links are symmetric, duplicate-free and acyclic (C10)",
+               "well-formedness of the DAG (links symmetric, duplicate-free, acyclic) is no longer assumed for DAGs built through the "
+               "DAGNode API: DagBridge.reachable_wf proves it for the graph read off every store reachable by any history of "
+               "DAGNode calls (C10's store model, any arguments, any hook faults); it remains a hypothesis only for DAGs whose "
+               "private lists were edited behind the API",
                "dag_iterator's claim is for weakly connected DAGs; closures, siblings and go_to for every DAG"]
 
 
@@ -288,15 +298,26 @@ def shrink(case):
 NOT_READY = False
 LEVEL_TEXT = ("proof: all clauses are Lean theorems about the executable model of dag_iterator / ancestors / descendants / "
               "siblings / go_to (BigtreeModel/Dag.lean), for every well-formed DAG (links symmetric, duplicate-free, acyclic) "
-              "of any size and every start / target node; the model is tied to the code by the correspondence check")
+              "of any size and every start / target node; the model is tied to the code by the correspondence check. "
+              "Bridge theorems DagBridge.* connect C10's statement-level store of DAGNode (parents/children lists, setters, "
+              "deleters, constructor, hooks, roll-back) with these graphs: the graph read off the store (toDag: same lists, same "
+              "order) is well-formed in every state reachable by any history of calls (reachable_wf, from C10.dwf_run; "
+              "toDag_wf_iff: the store invariant is exactly graph well-formedness), so the C16 theorems hold there, stated on the "
+              "store's own lists (dag_iter_edges_reachable, dag_iter_mem_reachable, ancestors_reachable - which also shows that the "
+              "ancestors list specified here is the very list the setters' loop check consults -, descendants_reachable, "
+              "siblings_store, go_to_reachable, and export_reachable for C17); and every call has its documented effect on the "
+              "edge list of the graph (assign_edges: nothing removed or reordered, accepted = old edges + the missing requested "
+              "ones; setChildren_edges_exact / setParents_edges_exact: list-exact position; delete_edges: exactly the named edges "
+              "filtered out, order kept; rejected_edges: unchanged)")
 LEVEL_NOTE = ("dag_iter_edges: the yielded pairs are a permutation of the edge list (every edge exactly once, parent->child) "
               "whenever every node is weakly connected to the start node; dag_iter_mem gives the general form (exactly the edges "
               "of the start node's component); fuel_suffices: the fuel-bounded recursion equals the unbounded one. "
               "ancestors/descendants = reachability + Nodup; siblings as a set (the tuple bigtree returns repeats a sibling "
               "once per shared parent; the property does not ask for 'once' there); go_to = exactly the directed paths, "
               "each once, refusal iff target unreachable. Nothing is partial. Rests on the tie: that the Python functions "
-              "behave as the model (visited set keyed by name, adjacency-list order), and that DAGs built through the setters "
-              "are well-formed (C10)")
+              "behave as the model (visited set keyed by name, adjacency-list order), and that the DAGNode setters behave as "
+              "C10's store model (C10's own tie); that DAGs built through the setters are well-formed is proved "
+              "(DagBridge.reachable_wf), not assumed")
 TECHNIQUE = ("Lean 4 proof over an executable fuel-bounded DFS model (order-independent invariant 'out = edges touching "
              "visited', neighbour-closure of the final visited set, pigeonhole bound for path length from acyclicity) + "
              "differential correspondence check against real bigtree (exhaustive DAGs <=4 nodes x construction orders, random "
